@@ -30,6 +30,10 @@ import UF.Props.C04Full
       unescaped); `$dnstype` names ASCII;
     * not in the grammar: `~extension` (toggles a bit), `$dnsrewrite` (C09/C10), `$replace`/`$csp`/… (unreachable).
   Only property theorems and non-vacuity examples here; helper lemmas live in UF/Compose5.
+
+  Added by group P2 (REVIEW2 F11): Props/C04Perm.lean PROVES what `c04_text_ref_order` below assumes (`hsame`):
+  the reference is invariant under permutation of modifiers and values (`c04_text_ref_perm`).  Props/C04Wide.lean
+  proves `c04_text_ref` for a WIDER grammar: quoted client names, patterns beginning with `/`, `~extension`.
 -/
 namespace UF.C04
 open UF Bytes UF.I2 UF.L
@@ -249,7 +253,9 @@ theorem c04_pattern_some (ext : Ext) (r : NetRule) (q : Request) (hwf : r.WellFo
 
 /-- `/regex/` rules: when the regex model answers, the pattern conjunct is the SEARCH of the parsed
     expression (`(?i)` unless `$match-case`) in the target — stated with the answer as a hypothesis, not
-    through `getD false`. -/
+    through `getD false`.  (Group P3: "the parsed expression" of a `$match-case` text is GO's tree,
+    `Re.goTree`, which for expressions like `A.|[aA]` is not the textbook reading; in terms of the written
+    expression: `c04_regex_matchcase_written`, `c04_regex_ci_written`, Props/C04Quirk.lean.) -/
 theorem c04_regex_some (ext : Ext) (r : NetRule) (q : Request) (hwf : r.WellFormed) (hq : q.InDomain)
     (hre : UF.isRegexPattern r.pattern = true) (b : Bool)
     (hb : modelPat r.pattern (r.isEnabled Facts.OptionMatchCase) (specTarget r q) = some b) :
